@@ -129,6 +129,9 @@ structure OState where
   deferred : Option Deferred := none
   lastRecorded : Option Nat := none
   lastBroadcast : Option Nat := none
+  /-- `reported_broadcast` of `perform_unsolicited_response_series`: the unsolicited response awaiting
+      its confirm carried IIN1.0 and no broadcast was received since it was written -/
+  unsolReported : Bool := false
   solBuf : List Nat
   unsolBuf : List Nat
   db : Db
@@ -566,8 +569,10 @@ def clearWrittenEvents (a : Acc) : Acc :=
   let a := ids.foldl (fun a id => emitCb a (.eventCleared id)) a
   emitCb a (.endConfirm c1 c2 c3)
 
-/-- `write_error_response` for a `TransportRequest::Error`; `none` = panic -/
-def writeErrorResponse (a : Acc) (dst : Nat) (seq : Option Nat) : Option Acc :=
+/-- `write_error_response` for a `TransportRequest::Error`; `none` = panic.  A broadcast fragment is
+    never answered -/
+def writeErrorResponse (a : Acc) (dst : Nat) (broadcast : Bool) (seq : Option Nat) : Option Acc :=
+  if broadcast then some a else
   match seq with
   | none => some a
   | some seq =>
@@ -578,21 +583,20 @@ def writeErrorResponse (a : Acc) (dst : Nat) (seq : Option Nat) : Option Acc :=
 /-- what `pop_request` + `guard.get()` yields -/
 inductive Popped where
   | nothing
-  | error (src : Nat) (seq : Option Nat)
+  | error (src : Nat) (broadcast : Bool) (seq : Option Nat)
   | request (f : Frag) (ctrl : AppCtrl) (func : Nat) (objects : Except Nat (List ObjHdr)) (raw : List Nat)
 
-/-- `pop_request(required_master_address)`: peek, parse, drop requests of a foreign master
-    (only well-formed *requests* are filtered — errors are not) -/
+/-- `pop_request(required_master_address)`: peek, parse, drop the fragments of a foreign master
+    (requests and fragments with a header-level error alike) -/
 def popRequest (s : OState) : OState × Popped :=
   match s.pending with
   | none => (s, .nothing)
   | some f =>
+    if !s.cfg.anymaster ∧ f.src ≠ s.cfg.master then ({ s with pending := none }, .nothing) else
     match parseRequest f.data with
-    | .insufficient => (s, .error f.src none)
-    | .headerError seq => (s, .error f.src (some seq))
-    | .request ctrl func objects raw =>
-      if !s.cfg.anymaster ∧ f.src ≠ s.cfg.master then ({ s with pending := none }, .nothing)
-      else (s, .request f ctrl func objects raw)
+    | .insufficient => (s, .error f.src f.broadcast.isSome none)
+    | .headerError seq => (s, .error f.src f.broadcast.isSome (some seq))
+    | .request ctrl func objects raw => (s, .request f ctrl func objects raw)
 
 inductive StepRes where
   | blocked (a : Acc)
@@ -606,27 +610,35 @@ def enterSolWait (a : Acc) (series : Series) (cont : SolCont) : Acc :=
   ({ a.1 with mode := .solWait series (a.1.now + a.1.cfg.ctimeout) cont }, a.2)
 
 /-- `process_request_from_idle` + the writing part of `handle_one_request_from_idle`.
-    Returns the accumulator and the series to wait on; `none` = panic -/
+    Returns the accumulator and the series to wait on; `none` = panic.  The `Bool` beside the
+    request record is `ResponseType::Echo`: the stored response of a repeated non-READ request
+    goes out verbatim (`repeat_solicited`), every other response through `write_solicited` -/
 def handleRequestFromIdle (a : Acc) (f : Frag) (ctrl : AppCtrl) (func : Nat)
     (objects : Except Nat (List ObjHdr)) (raw : List Nat) : Option (Acc × Option Series) :=
   let seq := ctrl.seq
-  let result : Option (Acc × Option LastReq) :=
+  let result : Option (Acc × Option (LastReq × Bool)) :=
     match classify a.1 f ctrl func objects with
-    | .malformed e => some (a, some ⟨seq, f.data, some (emptySolicited seq e), none⟩)
+    | .malformed e => some (a, some (⟨seq, f.data, some (emptySolicited seq e), none⟩, false))
     | .newRead hs | .repeatRead _ hs =>
       let (db, iin2) := dbSelectAll a.1.db hs
       let (s, r, series) := formatReadResponse { a.1 with db := db } true seq iin2
-      some ((s, a.2), some ⟨seq, f.data, some r, series⟩)
+      some ((s, a.2), some (⟨seq, f.data, some r, series⟩, false))
     | .newNonRead hs =>
       match handleNonRead a func seq f.id hs raw with
       | none => none
-      | some (a, r) => some (a, some ⟨seq, f.data, r, none⟩)
+      | some (a, r) => some (a, some (⟨seq, f.data, r, none⟩, false))
     | .repeatNonRead last =>
       let s := a.1
+      -- only a retransmission of the stored SELECT itself (function, sequence number, object octets,
+      -- directly following it) moves the select's frame id (`update_frame_id_on_repeat`)
       let s := match s.select with
-        | some sel => { s with select := some { sel with frameId := f.id } }
+        | some sel =>
+          if func = 3 ∧ sel.seq = seq ∧ (sel.frameId + 1) % 4294967296 = f.id ∧ sel.objects = raw then
+            { s with select := some { sel with frameId := f.id } }
+          else s
         | none => s
-      some ((s, a.2), some ⟨seq, f.data, last, none⟩)
+      -- the record of the request stays as it is, including the confirm wait its response opened
+      some ((s, a.2), some (⟨seq, f.data, last, s.lastReq.bind (·.series)⟩, true))
     | .broadcast mode =>
       match processBroadcast a f mode ctrl func objects raw with
       | none => none
@@ -635,10 +647,14 @@ def handleRequestFromIdle (a : Acc) (f : Frag) (ctrl : AppCtrl) (func : Nat)
   match result with
   | none => none
   | some (a, none) => some (a, none)
-  | some (a, some lr) =>
+  | some (a, some (lr, echo)) =>
     match lr.response with
     | none => some (({ a.1 with lastReq := some lr }, a.2), lr.series)
     | some r =>
+      if echo then
+        let a := repeatSolicited a f.src r
+        some (({ a.1 with lastReq := some lr }, a.2), lr.series)
+      else
       match writeSolicited a f.src r with
       | none => none
       | some (a, r) =>
@@ -652,7 +668,8 @@ def startUnsolSeries (a : Acc) (r : Resp) (isNull : Bool) : Option Acc :=
   | some (a, r) =>
     let a := emitCb a (.unsolWait r.ctrl.seq)
     let retries := if isNull then some 0 else a.1.cfg.retries
-    some ({ a.1 with mode := .unsolWait r isNull retries (a.1.now + a.1.cfg.ctimeout) }, a.2)
+    some ({ a.1 with mode := .unsolWait r isNull retries (a.1.now + a.1.cfg.ctimeout),
+                     unsolReported := r.iin1.testBit 0 }, a.2)
 
 def unsolHeader (seq : Nat) (size : Nat) : Resp :=
   { ctrl := ⟨true, true, true, true, seq⟩, func := 0x82, size := size }
@@ -759,9 +776,9 @@ def runPass : Nat → Acc → StepRes
     let a : Acc := (s, a.2)
     match p with
     | .nothing => afterRequest (runPass fuel) ({ a.1 with pending := none }, a.2)
-    | .error src seq =>
+    | .error src bc seq =>
       let a : Acc := (onLinkActivity { a.1 with pending := none }, a.2)
-      match writeErrorResponse a src seq with
+      match writeErrorResponse a src bc seq with
       | none => die a
       | some a => afterRequest (runPass fuel) a
     | .request f ctrl func objects raw =>
@@ -791,7 +808,7 @@ def solWaitOnFragment (a : Acc) (series : Series) (deadline : Nat) (cont : SolCo
   let newRequest (a : Acc) : StepRes := abortSeries (emitCb a .solNewRequest) cont   -- fragment retained
   match p with
   | .nothing => .blocked ({ a.1 with pending := none }, a.2)
-  | .error _ _ => newRequest (onLinkActivity a.1, a.2)
+  | .error _ _ _ => newRequest (onLinkActivity a.1, a.2)
   | .request f ctrl func objects _ =>
     let a : Acc := (onLinkActivity a.1, a.2)
     match classify a.1 f ctrl func objects with
@@ -843,8 +860,8 @@ def unsolWaitOnFragment (a : Acc) (resp : Resp) (isNull : Bool) : StepRes :=
   let a : Acc := ({ s with pending := none }, a.2)
   match p with
   | .nothing => .blocked a
-  | .error src seq =>
-    match writeErrorResponse ({ a.1 with deferred := none }, a.2) src seq with
+  | .error src bc seq =>
+    match writeErrorResponse ({ a.1 with deferred := none }, a.2) src bc seq with
     | none => die a
     | some a => .blocked a
   | .request f ctrl func objects raw =>
@@ -852,14 +869,16 @@ def unsolWaitOnFragment (a : Acc) (resp : Resp) (isNull : Bool) : StepRes :=
     match classify a.1 f ctrl func objects with
     | .unsolConfirm seq =>
       if seq = resp.ctrl.seq then
-        finishUnsol (emitCb ({ a.1 with lastBroadcast := none }, a.2) (.unsolConfirmed seq)) isNull true
+        -- the confirm clears the broadcast indication only if the confirmed response reported it
+        finishUnsol (emitCb ({ a.1 with lastBroadcast := if a.1.unsolReported then none else a.1.lastBroadcast }, a.2)
+          (.unsolConfirmed seq)) isNull true
       else .blocked a
     | .solConfirm _ =>
       .blocked (if a.1.lastBroadcast = some 1 then ({ a.1 with lastBroadcast := none }, a.2) else a)
     | .broadcast mode =>
       match processBroadcast ({ a.1 with deferred := none }, a.2) f mode ctrl func objects raw with
       | none => die a
-      | some a => .blocked a
+      | some a => .blocked ({ a.1 with unsolReported := false }, a.2)   -- `BroadcastReceived`
     | .malformed e =>
       match writeSolicited ({ a.1 with deferred := none }, a.2) f.src (emptySolicited ctrl.seq e) with
       | none => die a
